@@ -25,7 +25,9 @@ def run(tier):
         r.undecided = 'anchor missing: %s' % e
     r.seconds = time.time() - t0
     r.vacuity = []
-    return reps + [r] + C13.returns_fresh_reports(FRESH)
+    from ..contracts import synthwire as SW
+    wiring = [deductive.verify_function(rel, q, c, hooks=SW.hooks_for(c), prefix='%s::%s[rows, domain, which table per column]' % (rel, q)) for rel, q, c in SW.ITEMS]
+    return reps + wiring + [r] + C13.returns_fresh_reports(FRESH)
 
 
 def replay(prop, ob):
